@@ -67,6 +67,11 @@ def Val.cmpLe : Val → Val → Bool
   | .str a, .str b => a ≤ b
   | _, _ => false
 
+def Val.cmpLt : Val → Val → Bool
+  | .int a, .int b => a < b
+  | .str a, .str b => a < b
+  | _, _ => false
+
 def cmpOp (o : Oracles) (fn : String) (a b : Val) : Bool :=
   match a, b with
   | .num s, .numLit l => o.isNum s && o.numCmp fn s l
@@ -74,9 +79,9 @@ def cmpOp (o : Oracles) (fn : String) (a b : Val) : Bool :=
     match fn with
     | "==" => a == b
     | "!=" => a != b
-    | "<" => !(Val.cmpLe b a)
+    | "<" => Val.cmpLt a b
     | "<=" => Val.cmpLe a b
-    | ">" => !(Val.cmpLe a b)
+    | ">" => Val.cmpLt b a
     | ">=" => Val.cmpLe b a
     | _ => false
 
@@ -123,6 +128,7 @@ def evalE (o : Oracles) (env : Env) (r : Row) : Expr → Val
     | _, _ => .null
   | .orderBy e _ => evalE o env r e
   | .sub _ => .null
+  | .setop _ _ => .null
 def evalEs (o : Oracles) (env : Env) (r : Row) : List Expr → List Val
   | [] => []
   | e :: es => evalE o env r e :: evalEs o env r es
